@@ -48,6 +48,11 @@ func runC18(p *Prog, r *Report) {
 	fa := newFA(p, r, fn)
 	pkg := fn.Params[1]
 	c18Listed(p, r, fn)
+	r.Rule("D7-every-range-evaluated", "a range of a matching type is always sorted and searched")
+	frozenSkips(p, r, "D7-every-range-evaluated", "vulns.IsAffected", fn, func(in ssa.Instruction) bool {
+		c, ok := in.(*ssa.Call)
+		return ok && refOf(c.Common()).Pkg == "slices" && strings.HasPrefix(refOf(c.Common()).Name, "BinarySearchFunc")
+	}, c18RangeSkips, "RANGES", "a range of a matching type can be passed over without being sorted and searched (e.g. a shortcut that looks at the first *listed* event): the verdict then depends on the order in which the record lists its events")
 	// --- D1
 	ecoEq := func(c ssa.Value) (bool, bool) {
 		op, x, y, ok := cmpNorm(c)
@@ -479,4 +484,19 @@ func controlGuards(b *ssa.BasicBlock) []string {
 		out = append(out, renderCondV(ifi.Cond, r0))
 	}
 	return out
+}
+
+// c18RangeSkips: audited decisions that keep a range (or an affected entry) from being evaluated.
+var c18RangeSkips = []string{
+	"\"SEMVER\":github.com/ossf/osv-schema/bindings/go/osvschema.RangeType != ‹‹…[(…+…)]›.Ranges[(φ:int+1:int)]›.Type",
+	"\"npm\":string != ‹param0.Affected[(φ:int+1:int)]›.Package.Ecosystem",
+	"0:int != slices.BinarySearchFunc(slices.Clone(‹‹…›.Ranges[(φ:int+1:int)]›.Events),param1.Version,*ssa.MakeClosure)#0 && builtin.len(slices.Clone(‹….Ranges[(φ:int+1:int)]›.Events)[(slices.BinarySearchFunc(slices.Clone(‹…›.Events),param1.Version,*ssa.MakeClosure)#0-1:int)].Introduced) != 0",
+	"builtin.len(param0.Affected) <= (φ:int+1:int)",
+	"builtin.len(‹param0.Affected[(φ:int+1:int)]›.Ranges) <= (φ:int+1:int)",
+	"builtin.len(‹param0.Affected[(φ:int+1:int)]›.Ranges) <= (φ:int+1:int)",
+	"builtin.len(‹slices.Clone(‹…[…]›.Events)[slices.BinarySearchFunc(slices.Clone(‹…›.Events),param1.Version,*ssa.MakeClosure)#0]›.Introduced) != 0",
+	"builtin.len(‹slices.Clone(‹…[…]›.Events)[slices.BinarySearchFunc(slices.Clone(‹…›.Events),param1.Version,*ssa.MakeClosure)#0]›.LastAffected) != 0",
+	"extractor.Package.Ecosystem(param1) != ‹param0.Affected[(φ:int+1:int)]›.Package.Ecosystem",
+	"param1.Name != ‹param0.Affected[(φ:int+1:int)]›.Package.Name",
+	"slices.Contains(‹param0.Affected[(φ:int+1:int)]›.Versions,param1.Version)",
 }
